@@ -842,3 +842,147 @@ Proof.
   split; [|apply dist_le_trans].
   destruct (dist_less target p q) eqn:E; [left; apply dist_less_true|right; apply dist_less_false]; auto.
 Qed.
+
+(** * What the byte-level order and prefix length mean numerically *)
+
+(** value of a byte string read as a big-endian number *)
+Fixpoint be_val (b : bytes) : N :=
+  match b with
+  | [] => 0
+  | x :: r => x * 256 ^ N.of_nat (length r) + be_val r
+  end%N.
+
+Lemma be_val_bound b : wf_bytes b = true -> (be_val b < 256 ^ N.of_nat (length b))%N.
+Proof.
+  induction b as [|x r IH]; intro H; [simpl; lia|].
+  rewrite wf_bytes_cons in H. apply andb_prop in H. destruct H as [Hx Hr].
+  specialize (IH Hr). unfold byte_ok in Hx. apply N.ltb_lt in Hx.
+  cbn [be_val length]. rewrite pow256_succ. nia.
+Qed.
+
+(** [bytes.Compare] on equally long byte strings is the comparison of the numbers they denote. *)
+Lemma bytes_compare_numeric a : forall b,
+  length a = length b -> wf_bytes a = true -> wf_bytes b = true ->
+  bytes_compare a b = (be_val a ?= be_val b)%N.
+Proof.
+  induction a as [|x a IH]; intros [|y b] Hl Ha Hb; simpl in Hl; try discriminate; [reflexivity|].
+  rewrite wf_bytes_cons in Ha, Hb. apply andb_prop in Ha, Hb. destruct Ha as [Hx Ha], Hb as [Hy Hb].
+  injection Hl as Hl.
+  pose proof (be_val_bound a Ha) as Ba. pose proof (be_val_bound b Hb) as Bb.
+  cbn [bytes_compare be_val]. rewrite <- Hl in *.
+  set (P := (256 ^ N.of_nat (length a))%N) in *.
+  destruct (N.compare_spec x y) as [E|E|E].
+  - subst y. rewrite (IH b Hl Ha Hb).
+    destruct (N.compare_spec (be_val a) (be_val b)) as [E|E|E]; symmetry;
+      [apply N.compare_eq_iff|apply N.compare_lt_iff|apply N.compare_gt_iff]; lia.
+  - symmetry. apply N.compare_lt_iff. nia.
+  - symmetry. apply N.compare_gt_iff. nia.
+Qed.
+
+Lemma lxor_byte x y : (x < 256)%N -> (y < 256)%N -> (N.lxor x y < 256)%N.
+Proof.
+  intros Hx Hy.
+  destruct (N.eq_dec (N.lxor x y) 0) as [E|E]; [rewrite E; lia|].
+  change 256%N with (2 ^ 8)%N. apply N.log2_lt_pow2; [lia|].
+  eapply N.le_lt_trans; [apply N.log2_lxor|].
+  apply N.max_lub_lt.
+  - destruct (N.eq_dec x 0) as [->|Nx]; [simpl; lia|]. apply N.log2_lt_pow2; lia.
+  - destruct (N.eq_dec y 0) as [->|Ny]; [simpl; lia|]. apply N.log2_lt_pow2; lia.
+Qed.
+
+Lemma distance_wf a : forall b, wf_bytes a = true -> wf_bytes b = true -> wf_bytes (distance a b) = true.
+Proof.
+  induction a as [|x a IH]; intros [|y b] Ha Hb; simpl; auto.
+  rewrite wf_bytes_cons in Ha, Hb. apply andb_prop in Ha, Hb. destruct Ha as [Hx Ha], Hb as [Hy Hb].
+  apply andb_true_intro. split; [|apply IH; auto].
+  unfold byte_ok in *. apply N.ltb_lt. apply lxor_byte; apply N.ltb_lt; auto.
+Qed.
+
+Lemma distance_length a : forall b, length a = length b -> length (distance a b) = length a.
+Proof. induction a as [|x a IH]; intros [|y b] H; simpl in *; try discriminate; auto. Qed.
+
+Definition wf_id (id : peer_id) : Prop := length id = KB_ID_LEN /\ wf_bytes id = true.
+
+(** XOR distance as a number *)
+Definition xor_dist (a b : peer_id) : N := be_val (distance a b).
+
+(** For real ids ([KB_ID_LEN] bytes) the order NearestPeers sorts by is the numeric order of the
+    XOR distances. *)
+Lemma dist_le_numeric target p q :
+  wf_id target -> wf_id (fst p) -> wf_id (fst q) ->
+  (dist_le target p q <-> (xor_dist target (fst p) <= xor_dist target (fst q))%N).
+Proof.
+  intros [Lt Wt] [Lp Wp] [Lq Wq]. unfold dist_le, xor_dist.
+  rewrite bytes_compare_numeric.
+  - rewrite N.compare_le_iff. tauto.
+  - rewrite !distance_length; congruence.
+  - apply distance_wf; auto.
+  - apply distance_wf; auto.
+Qed.
+
+(** [N.size_nat x] is the least [k] with [x < 2^k] (the bit length, Go's [bits.Len]). *)
+Lemma pos_size_nat_spec p : forall k, Pos.size_nat p <= k <-> (N.pos p < 2 ^ N.of_nat k)%N.
+Proof.
+  induction p as [p IH|p IH|]; intros [|k]; simpl Pos.size_nat.
+  - simpl. lia.
+  - rewrite Nat2N.inj_succ, N.pow_succ_r'. specialize (IH k). lia.
+  - simpl. lia.
+  - rewrite Nat2N.inj_succ, N.pow_succ_r'. specialize (IH k). lia.
+  - simpl. lia.
+  - rewrite Nat2N.inj_succ, N.pow_succ_r'. assert (2 ^ N.of_nat k <> 0)%N by (apply N.pow_nonzero; discriminate). lia.
+Qed.
+
+Lemma size_nat_spec x k : N.size_nat x <= k <-> (x < 2 ^ N.of_nat k)%N.
+Proof.
+  destruct x as [|p]; simpl.
+  - assert (0 < 2 ^ N.of_nat k)%N by (apply N.neq_0_lt_0, N.pow_nonzero; discriminate). lia.
+  - apply pos_size_nat_spec.
+Qed.
+
+Lemma size_nat_unique y k : (2 ^ N.of_nat k <= y < 2 ^ N.of_nat (S k))%N -> N.size_nat y = S k.
+Proof.
+  intros [H1 H2]. apply size_nat_spec in H2.
+  assert (~ N.size_nat y <= k) by (rewrite size_nat_spec; lia). lia.
+Qed.
+
+Lemma pow256_pow2 n : (256 ^ N.of_nat n = 2 ^ N.of_nat (8 * n))%N.
+Proof.
+  change 256%N with (2 ^ 8)%N. rewrite <- N.pow_mul_r. f_equal. lia.
+Qed.
+
+(** [zeroPrefixLen] counts the leading zero bits of the byte string read as a number. *)
+Lemma zero_prefix_len_numeric d :
+  wf_bytes d = true -> zero_prefix_len d = 8 * length d - N.size_nat (be_val d).
+Proof.
+  induction d as [|b r IH]; intro H; [reflexivity|].
+  rewrite wf_bytes_cons in H. apply andb_prop in H. destruct H as [Hb Hr].
+  specialize (IH Hr). pose proof (be_val_bound r Hr) as Br. rewrite pow256_pow2 in Br.
+  unfold byte_ok in Hb. apply N.ltb_lt in Hb.
+  cbn [zero_prefix_len be_val length]. rewrite pow256_pow2.
+  destruct (N.eqb_spec b 0) as [->|Nb].
+  - rewrite N.mul_0_l, N.add_0_l. apply size_nat_spec in Br. lia.
+  - unfold leading_zeros8.
+    assert (Hs : exists s, N.size_nat b = S s).
+    { destruct (N.size_nat b) eqn:E; eauto. exfalso.
+      assert (N.size_nat b <= 0) as Hz by lia. apply size_nat_spec in Hz. simpl in Hz. lia. }
+    destruct Hs as [s Hs].
+    assert (H1 : (b < 2 ^ N.of_nat (S s))%N) by (apply size_nat_spec; lia).
+    assert (H0 : (2 ^ N.of_nat s <= b)%N).
+    { apply N.le_ngt. intro Hc. apply size_nat_spec in Hc. lia. }
+    assert (Hs8 : S s <= 8) by (rewrite <- Hs; apply size_nat_spec; exact Hb).
+    rewrite (size_nat_unique (b * 2 ^ N.of_nat (8 * length r) + be_val r) (s + 8 * length r)).
+    + lia.
+    + replace (N.of_nat (s + 8 * length r)) with (N.of_nat s + N.of_nat (8 * length r))%N by lia.
+      replace (N.of_nat (S (s + 8 * length r))) with (N.of_nat (S s) + N.of_nat (8 * length r))%N by lia.
+      rewrite !N.pow_add_r. set (P := (2 ^ N.of_nat (8 * length r))%N) in *. nia.
+Qed.
+
+(** CommonPrefixLen of two real ids: the number of leading zero bits of their XOR distance
+    written with 8*KB_ID_LEN bits, i.e. the number of leading bits the two ids share. *)
+Lemma cpl_numeric a b :
+  wf_id a -> wf_id b -> cpl a b = 8 * KB_ID_LEN - N.size_nat (xor_dist a b).
+Proof.
+  intros [La Wa] [Lb Wb]. unfold cpl, xor_dist.
+  rewrite zero_prefix_len_numeric by (apply distance_wf; auto).
+  rewrite distance_length; congruence.
+Qed.
